@@ -20,14 +20,43 @@ def FI (s : Text) (f : Frag) : Prop :=
 def P1 (s : Text) (f : Frag) (ts : List STok) : Prop :=
   FI s f ∧ SContract s ts ∧ ∀ t ∈ ts, f.start ≤ t.from_
 
-theorem add_start (f : Frag) (t : STok) : (f.add t).start = f.start := by
+theorem stopAfter_zero (a b : Nat) : stopAfter 0 a b = b := by simp [stopAfter]
+
+theorem stopAfter_pos {mode : Nat} (hm : mode ≠ 0) (a b : Nat) : stopAfter mode a b = max a b := by
+  simp [stopAfter, hm]
+
+theorem stopAfter_ge (mode a b : Nat) : b ≤ stopAfter mode a b := by
+  unfold stopAfter; split <;> omega
+
+theorem stopAfter_le (mode a b : Nat) : stopAfter mode a b ≤ max a b := by
+  unfold stopAfter; split <;> omega
+
+theorem stopAfter_cases (mode a b : Nat) :
+    stopAfter mode a b = b ∨ (stopAfter mode a b = a ∧ b ≤ a) := by
+  unfold stopAfter; split
+  · left; rfl
+  · by_cases h : a ≤ b
+    · left; omega
+    · right; omega
+
+theorem add_start (mode : Nat) (f : Frag) (t : STok) : (f.add mode t).start = f.start := by
   unfold Frag.add; cases t.score <;> rfl
 
-theorem add_stop (f : Frag) (t : STok) : (f.add t).stop = t.to := by
+theorem add_stop (mode : Nat) (f : Frag) (t : STok) :
+    (f.add mode t).stop = stopAfter mode f.stop t.to := by
   unfold Frag.add; cases t.score <;> rfl
 
-theorem add_hl (f : Frag) (t : STok) :
-    ∀ h ∈ (f.add t).hl, h ∈ f.hl ∨ h = (t.from_, t.to) := by
+/-- the first token of a new fragment: the stop offset is its end whatever the mode -/
+theorem add_stop_cut (mode : Nat) (t : STok) (h : t.from_ ≤ t.to) :
+    ((Frag.new t.from_).add mode t).stop = t.to := by
+  rw [add_stop]
+  have h1 := stopAfter_ge mode (Frag.new t.from_).stop t.to
+  have h2 := stopAfter_le mode (Frag.new t.from_).stop t.to
+  simp only [Frag.new] at *
+  omega
+
+theorem add_hl (mode : Nat) (f : Frag) (t : STok) :
+    ∀ h ∈ (f.add mode t).hl, h ∈ f.hl ∨ h = (t.from_, t.to) := by
   intro h hh
   unfold Frag.add at hh
   cases hs : t.score with
@@ -44,36 +73,41 @@ theorem P1_safe (s : Text) (f : Frag) (t : STok) (ts : List STok) (h : P1 s f (t
   have := hs t List.mem_cons_self
   omega
 
-theorem P1_add (s : Text) (f : Frag) (t : STok) (ts : List STok) (h : P1 s f (t :: ts)) :
-    P1 s (f.add t) ts := by
+theorem P1_add (mode : Nat) (s : Text) (f : Frag) (t : STok) (ts : List STok)
+    (h : P1 s f (t :: ts)) : P1 s (f.add mode t) ts := by
   obtain ⟨hf, hc, hs⟩ := h
   obtain ⟨t1, t2, t3, t4⟩ := hc.inb t List.mem_cons_self
   have hst := hs t List.mem_cons_self
   obtain ⟨f1, f2, f3, f4, f5⟩ := hf
+  have hge := stopAfter_ge mode f.stop t.to
+  have hle := stopAfter_le mode f.stop t.to
   refine ⟨⟨?_, ?_, ?_, ?_, ?_⟩, hc.tail, ?_⟩
   · rw [add_start, add_stop]; omega
-  · rw [add_stop]; exact t2
+  · rw [add_stop]; omega
   · rw [add_start]; exact f3
-  · rw [add_stop]; exact t4
+  · rw [add_stop]
+    rcases stopAfter_cases mode f.stop t.to with e | ⟨e, _⟩
+    · rw [e]; exact t4
+    · rw [e]; exact f4
   · intro h hh
     rw [add_start]
-    rcases add_hl f t h hh with hh | hh
+    rcases add_hl mode f t h hh with hh | hh
     · exact f5 h hh
     · subst hh; exact ⟨hst, t1, t2, t3, t4⟩
   · intro x hx; rw [add_start]; exact hs x (List.mem_cons_of_mem _ hx)
 
-theorem P1_cut (s : Text) (f : Frag) (t : STok) (ts : List STok) (h : P1 s f (t :: ts)) :
-    P1 s ((Frag.new t.from_).add t) ts := by
+theorem P1_cut (mode : Nat) (s : Text) (f : Frag) (t : STok) (ts : List STok)
+    (h : P1 s f (t :: ts)) : P1 s ((Frag.new t.from_).add mode t) ts := by
   obtain ⟨_, hc, _⟩ := h
   obtain ⟨t1, t2, t3, t4⟩ := hc.inb t List.mem_cons_self
   refine ⟨⟨?_, ?_, ?_, ?_, ?_⟩, hc.tail, ?_⟩
-  · rw [add_start, add_stop]; exact t1
-  · rw [add_stop]; exact t2
+  · rw [add_start, add_stop_cut mode t t1]; exact t1
+  · rw [add_stop_cut mode t t1]; exact t2
   · rw [add_start]; exact t3
-  · rw [add_stop]; exact t4
+  · rw [add_stop_cut mode t t1]; exact t4
   · intro h hh
     rw [add_start]
-    rcases add_hl _ t h hh with hh | hh
+    rcases add_hl mode _ t h hh with hh | hh
     · simp [Frag.new] at hh
     · subst hh; exact ⟨Nat.le_refl _, t1, t2, t3, t4⟩
   · intro x hx
@@ -89,51 +123,88 @@ def P2 (s : Text) (f : Frag) (ts : List STok) : Prop :=
   P1 s f ts ∧ (∀ h ∈ f.hl, h.2 ≤ f.stop) ∧ (∀ t ∈ ts, f.stop ≤ t.to) ∧
   ts.Pairwise (fun a b => a.to ≤ b.to)
 
-theorem P2_step (s : Text) (g f : Frag) (t : STok) (ts : List STok) (h : P2 s f (t :: ts))
-    (hg : ∀ h ∈ g.hl, h.2 ≤ t.to) (h1 : P1 s (g.add t) ts) : P2 s (g.add t) ts := by
+theorem P2_step (mode : Nat) (s : Text) (g f : Frag) (t : STok) (ts : List STok)
+    (h : P2 s f (t :: ts)) (hg : ∀ h ∈ g.hl, h.2 ≤ t.to) (hgs : g.stop ≤ t.to)
+    (h1 : P1 s (g.add mode t) ts) : P2 s (g.add mode t) ts := by
   obtain ⟨_, _, _, hp⟩ := h
   rw [List.pairwise_cons] at hp
+  have hge := stopAfter_ge mode g.stop t.to
+  have hle := stopAfter_le mode g.stop t.to
   refine ⟨h1, ?_, ?_, hp.2⟩
   · intro x hx
     rw [add_stop]
-    rcases add_hl g t x hx with hx | hx
-    · exact hg x hx
-    · subst hx; exact Nat.le_refl _
-  · intro x hx; rw [add_stop]; exact hp.1 x hx
+    rcases add_hl mode g t x hx with hx | hx
+    · have := hg x hx; omega
+    · subst hx; exact hge
+  · intro x hx; rw [add_stop]; have := hp.1 x hx; omega
 
 /-- when no token is longer than `M`, no fragment is -/
 def P3 (M : Nat) (s : Text) (f : Frag) (ts : List STok) : Prop :=
   P1 s f ts ∧ f.stop - f.start ≤ M ∧ ∀ t ∈ ts, t.to - t.from_ ≤ M
 
-theorem search_P1 (s : Text) (M : Nat) (ts : List STok) (h : SContract s ts) :
-    ∃ frags, searchFragments M ts = some frags ∧ ∀ g ∈ frags, FI s g := by
-  obtain ⟨frags, e, hf⟩ := searchAux_inv M (P1 s) (P1_safe s) (fun f t ts h _ => P1_add s f t ts h)
-    (fun f t ts h _ => P1_cut s f t ts h) ts (Frag.new 0) (P1_init s ts h)
+theorem search_P1 (mode : Nat) (s : Text) (M : Nat) (ts : List STok) (h : SContract s ts) :
+    ∃ frags, searchFragments mode M ts = some frags ∧ ∀ g ∈ frags, FI s g := by
+  obtain ⟨frags, e, hf⟩ := searchAux_inv mode M (P1 s) (P1_safe s)
+    (fun f t ts h _ => P1_add mode s f t ts h)
+    (fun f t ts h _ => P1_cut mode s f t ts h) ts (Frag.new 0) (P1_init s ts h)
   exact ⟨frags, e, fun g hg => by obtain ⟨_, h⟩ := hf g hg; exact h.1⟩
 
-theorem search_P2 (s : Text) (M : Nat) (ts : List STok) (h : SContract s ts)
+theorem search_P2 (mode : Nat) (s : Text) (M : Nat) (ts : List STok) (h : SContract s ts)
     (hto : ts.Pairwise (fun a b => a.to ≤ b.to)) :
-    ∃ frags, searchFragments M ts = some frags ∧
+    ∃ frags, searchFragments mode M ts = some frags ∧
       ∀ g ∈ frags, FI s g ∧ ∀ h ∈ g.hl, h.2 ≤ g.stop := by
-  obtain ⟨frags, e, hf⟩ := searchAux_inv M (P2 s) (fun f t ts h => P1_safe s f t ts h.1)
-    (fun f t ts h _ => P2_step s f f t ts h
-      (fun x hx => Nat.le_trans (h.2.1 x hx) (h.2.2.1 t List.mem_cons_self)) (P1_add s f t ts h.1))
-    (fun f t ts h _ => P2_step s (Frag.new t.from_) f t ts h (by simp [Frag.new]) (P1_cut s f t ts h.1))
+  obtain ⟨frags, e, hf⟩ := searchAux_inv mode M (P2 s) (fun f t ts h => P1_safe s f t ts h.1)
+    (fun f t ts h _ => P2_step mode s f f t ts h
+      (fun x hx => Nat.le_trans (h.2.1 x hx) (h.2.2.1 t List.mem_cons_self))
+      (h.2.2.1 t List.mem_cons_self) (P1_add mode s f t ts h.1))
+    (fun f t ts h _ => P2_step mode s (Frag.new t.from_) f t ts h (by simp [Frag.new])
+      (by simp only [Frag.new]; exact (h.1.2.1.inb t List.mem_cons_self).1) (P1_cut mode s f t ts h.1))
     ts (Frag.new 0)
     ⟨P1_init s ts h, by simp [Frag.new], fun _ _ => by simp [Frag.new], hto⟩
   exact ⟨frags, e, fun g hg => by obtain ⟨_, h⟩ := hf g hg; exact ⟨h.1.1, h.2.1⟩⟩
 
-theorem search_P3 (s : Text) (M : Nat) (ts : List STok) (h : SContract s ts)
+theorem search_P3 (mode : Nat) (s : Text) (M : Nat) (ts : List STok) (h : SContract s ts)
     (hlen : ∀ t ∈ ts, t.to - t.from_ ≤ M) :
-    ∃ frags, searchFragments M ts = some frags ∧ ∀ g ∈ frags, FI s g ∧ g.stop - g.start ≤ M := by
-  obtain ⟨frags, e, hf⟩ := searchAux_inv M (P3 M s) (fun f t ts h => P1_safe s f t ts h.1)
-    (fun f t ts h hc => ⟨P1_add s f t ts h.1, by rw [add_start, add_stop]; omega,
+    ∃ frags, searchFragments mode M ts = some frags ∧
+      ∀ g ∈ frags, FI s g ∧ g.stop - g.start ≤ M := by
+  obtain ⟨frags, e, hf⟩ := searchAux_inv mode M (P3 M s) (fun f t ts h => P1_safe s f t ts h.1)
+    (fun f t ts h hc => ⟨P1_add mode s f t ts h.1, by
+      rw [add_start, add_stop]
+      have := stopAfter_le mode f.stop t.to
+      have := h.2.1
+      omega,
       fun x hx => h.2.2 x (List.mem_cons_of_mem _ hx)⟩)
-    (fun f t ts h _ => ⟨P1_cut s f t ts h.1, by
-      rw [add_start, add_stop]; exact h.2.2 t List.mem_cons_self,
+    (fun f t ts h _ => ⟨P1_cut mode s f t ts h.1, by
+      rw [add_start, add_stop_cut mode t (h.1.2.1.inb t List.mem_cons_self).1]
+      exact h.2.2 t List.mem_cons_self,
       fun x hx => h.2.2 x (List.mem_cons_of_mem _ hx)⟩)
     ts (Frag.new 0) ⟨P1_init s ts h, by simp [Frag.new], hlen⟩
   exact ⟨frags, e, fun g hg => by obtain ⟨_, h⟩ := hf g hg; exact ⟨h.1.1, h.2.1⟩⟩
+
+/-- with the running maximum (`mode ≠ 0`, the repaired `try_add_token`) every highlight ends
+before the fragment's stop offset, for **every** token stream satisfying the contract -/
+def P7 (s : Text) (f : Frag) (ts : List STok) : Prop :=
+  P1 s f ts ∧ ∀ h ∈ f.hl, h.2 ≤ f.stop
+
+theorem P7_step {mode : Nat} (hm : mode ≠ 0) (s : Text) (g : Frag) (t : STok) (ts : List STok)
+    (hg : ∀ h ∈ g.hl, h.2 ≤ g.stop) (h1 : P1 s (g.add mode t) ts) : P7 s (g.add mode t) ts := by
+  refine ⟨h1, ?_⟩
+  intro x hx
+  rw [add_stop, stopAfter_pos hm]
+  rcases add_hl mode g t x hx with hx | hx
+  · have := hg x hx; omega
+  · subst hx; simp only; omega
+
+theorem search_P7 {mode : Nat} (hm : mode ≠ 0) (s : Text) (M : Nat) (ts : List STok)
+    (h : SContract s ts) :
+    ∃ frags, searchFragments mode M ts = some frags ∧
+      ∀ g ∈ frags, FI s g ∧ ∀ h ∈ g.hl, h.2 ≤ g.stop := by
+  obtain ⟨frags, e, hf⟩ := searchAux_inv mode M (P7 s) (fun f t ts h => P1_safe s f t ts h.1)
+    (fun f t ts h _ => P7_step hm s f t ts h.2 (P1_add mode s f t ts h.1))
+    (fun f t ts h _ => P7_step hm s (Frag.new t.from_) t ts (by simp [Frag.new])
+      (P1_cut mode s f t ts h.1))
+    ts (Frag.new 0) ⟨P1_init s ts h, by simp [Frag.new]⟩
+  exact ⟨frags, e, fun g hg => by obtain ⟨_, h⟩ := hf g hg; exact ⟨h.1.1, h.2⟩⟩
 
 /-- `select_best_fragment_combination` on a fragment satisfying the invariant does not panic -/
 theorem mkSnippet_of_FI (s : Text) (f : Frag) (h : FI s f) :
@@ -159,8 +230,8 @@ open TantivyModel.Tok
 
 /-! ### what the highlights are: exactly the term tokens of the fragment, in stream order -/
 
-theorem add_hl_eq (f : Frag) (t : STok) :
-    (f.add t).hl = f.hl ++ (if t.score.isSome then [(t.from_, t.to)] else []) := by
+theorem add_hl_eq (mode : Nat) (f : Frag) (t : STok) :
+    (f.add mode t).hl = f.hl ++ (if t.score.isSome then [(t.from_, t.to)] else []) := by
   unfold Frag.add
   cases t.score <;> simp
 
@@ -169,9 +240,9 @@ def P4 (all : List STok) (s : Text) (f : Frag) (ts : List STok) : Prop :=
   P1 s f ts ∧ (∀ t ∈ ts, t ∈ all) ∧
   ∀ h ∈ f.hl, ∃ t ∈ all, t.score.isSome = true ∧ h = (t.from_, t.to)
 
-theorem P4_step (all : List STok) (s : Text) (g f : Frag) (t : STok) (ts : List STok)
+theorem P4_step (mode : Nat) (all : List STok) (s : Text) (g f : Frag) (t : STok) (ts : List STok)
     (h : P4 all s f (t :: ts)) (hg : ∀ h ∈ g.hl, ∃ t ∈ all, t.score.isSome = true ∧ h = (t.from_, t.to))
-    (h1 : P1 s (g.add t) ts) : P4 all s (g.add t) ts := by
+    (h1 : P1 s (g.add mode t) ts) : P4 all s (g.add mode t) ts := by
   refine ⟨h1, fun x hx => h.2.1 x (List.mem_cons_of_mem _ hx), ?_⟩
   intro x hx
   rw [add_hl_eq, List.mem_append] at hx
@@ -183,12 +254,13 @@ theorem P4_step (all : List STok) (s : Text) (g f : Frag) (t : STok) (ts : List 
       exact ⟨t, h.2.1 t List.mem_cons_self, hs, hx⟩
     · simp at hx
 
-theorem search_P4 (s : Text) (M : Nat) (ts : List STok) (h : SContract s ts) :
-    ∃ frags, searchFragments M ts = some frags ∧
+theorem search_P4 (mode : Nat) (s : Text) (M : Nat) (ts : List STok) (h : SContract s ts) :
+    ∃ frags, searchFragments mode M ts = some frags ∧
       ∀ g ∈ frags, FI s g ∧ ∀ h ∈ g.hl, ∃ t ∈ ts, t.score.isSome = true ∧ h = (t.from_, t.to) := by
-  obtain ⟨frags, e, hf⟩ := searchAux_inv M (P4 ts s) (fun f t r h => P1_safe s f t r h.1)
-    (fun f t r h _ => P4_step ts s f f t r h h.2.2 (P1_add s f t r h.1))
-    (fun f t r h _ => P4_step ts s (Frag.new t.from_) f t r h (by simp [Frag.new]) (P1_cut s f t r h.1))
+  obtain ⟨frags, e, hf⟩ := searchAux_inv mode M (P4 ts s) (fun f t r h => P1_safe s f t r h.1)
+    (fun f t r h _ => P4_step mode ts s f f t r h h.2.2 (P1_add mode s f t r h.1))
+    (fun f t r h _ => P4_step mode ts s (Frag.new t.from_) f t r h (by simp [Frag.new])
+      (P1_cut mode s f t r h.1))
     ts (Frag.new 0) ⟨P1_init s ts h, fun _ h => h, by simp [Frag.new]⟩
   exact ⟨frags, e, fun g hg => by obtain ⟨_, h⟩ := hf g hg; exact ⟨h.1.1, h.2.2⟩⟩
 
@@ -198,9 +270,10 @@ def P5 (s : Text) (f : Frag) (ts : List STok) : Prop :=
   P1 s f ts ∧ f.hl.Pairwise (fun a b => a.2 ≤ b.1) ∧ (∀ h ∈ f.hl, ∀ t ∈ ts, h.2 ≤ t.from_) ∧
   ts.Pairwise (fun a b => a.to ≤ b.from_)
 
-theorem P5_step (s : Text) (g f : Frag) (t : STok) (ts : List STok) (h : P5 s f (t :: ts))
+theorem P5_step (mode : Nat) (s : Text) (g f : Frag) (t : STok) (ts : List STok)
+    (h : P5 s f (t :: ts))
     (hg1 : g.hl.Pairwise (fun a b => a.2 ≤ b.1)) (hg2 : ∀ h ∈ g.hl, ∀ t' ∈ t :: ts, h.2 ≤ t'.from_)
-    (h1 : P1 s (g.add t) ts) : P5 s (g.add t) ts := by
+    (h1 : P1 s (g.add mode t) ts) : P5 s (g.add mode t) ts := by
   obtain ⟨_, _, _, hp⟩ := h
   rw [List.pairwise_cons] at hp
   refine ⟨h1, ?_, ?_, hp.2⟩
@@ -219,14 +292,14 @@ theorem P5_step (s : Text) (g f : Frag) (t : STok) (ts : List STok) (h : P5 s f 
       · simp only [List.mem_singleton] at hx; subst hx; exact hp.1 t' ht'
       · simp at hx
 
-theorem search_P5 (s : Text) (M : Nat) (ts : List STok) (h : SContract s ts)
+theorem search_P5 (mode : Nat) (s : Text) (M : Nat) (ts : List STok) (h : SContract s ts)
     (hd : ts.Pairwise (fun a b => a.to ≤ b.from_)) :
-    ∃ frags, searchFragments M ts = some frags ∧
+    ∃ frags, searchFragments mode M ts = some frags ∧
       ∀ g ∈ frags, FI s g ∧ g.hl.Pairwise (fun a b => a.2 ≤ b.1) := by
-  obtain ⟨frags, e, hf⟩ := searchAux_inv M (P5 s) (fun f t r h => P1_safe s f t r h.1)
-    (fun f t r h _ => P5_step s f f t r h h.2.1 h.2.2.1 (P1_add s f t r h.1))
-    (fun f t r h _ => P5_step s (Frag.new t.from_) f t r h (by simp [Frag.new]) (by simp [Frag.new])
-      (P1_cut s f t r h.1))
+  obtain ⟨frags, e, hf⟩ := searchAux_inv mode M (P5 s) (fun f t r h => P1_safe s f t r h.1)
+    (fun f t r h _ => P5_step mode s f f t r h h.2.1 h.2.2.1 (P1_add mode s f t r h.1))
+    (fun f t r h _ => P5_step mode s (Frag.new t.from_) f t r h (by simp [Frag.new]) (by simp [Frag.new])
+      (P1_cut mode s f t r h.1))
     ts (Frag.new 0) ⟨P1_init s ts h, by simp [Frag.new], by simp [Frag.new], hd⟩
   exact ⟨frags, e, fun g hg => by obtain ⟨_, h⟩ := hf g hg; exact ⟨h.1.1, h.2.1⟩⟩
 
@@ -271,10 +344,10 @@ namespace TantivyModel.Snip
 open TantivyModel.Tok
 
 /-- from fragments whose highlights end before the stop offset to the rendered snippet -/
-theorem snippet_inside (s : Text) (M : Nat) (ts : List STok) (frags : List Frag)
-    (e : searchFragments M ts = some frags)
+theorem snippet_inside (mode : Nat) (s : Text) (M : Nat) (ts : List STok) (frags : List Frag)
+    (e : searchFragments mode M ts = some frags)
     (hf : ∀ g ∈ frags, FI s g ∧ ∀ h ∈ g.hl, h.2 ≤ g.stop) :
-    ∃ sn, snippet s M ts = some sn ∧
+    ∃ sn, snippet mode s M ts = some sn ∧
       (∀ h ∈ sn.hl, h.1 ≤ h.2 ∧ h.2 ≤ byteLen sn.fragment ∧
         IsBoundary sn.fragment h.1 ∧ IsBoundary sn.fragment h.2) ∧
       ∃ out, toHtml sn = some out := by
@@ -324,9 +397,9 @@ def P6 (M : Nat) (s : Text) (f : Frag) (ts : List STok) : Prop :=
 theorem P6_next (M : Nat) (s : Text) (g f : Frag) (t : STok) (ts : List STok) (R : Nat)
     (hlen : ∀ x ∈ t :: ts, x.to - x.from_ ≤ M)
     (hrec : RecOkN R f.stop ((t :: ts).map (·.to))) (hg : ∀ h ∈ g.hl, h.2 ≤ max R t.to)
-    (hfit : max R t.to ≤ g.start + M) (h1 : P1 s (g.add t) ts) : P6 M s (g.add t) ts := by
+    (hfit : max R t.to ≤ g.start + M) (h1 : P1 s (g.add 0 t) ts) : P6 M s (g.add 0 t) ts := by
   refine ⟨h1, fun x hx => hlen x (List.mem_cons_of_mem _ hx), max R t.to, ?_, ?_, ?_⟩
-  · rw [add_stop]
+  · rw [add_stop, stopAfter_zero]
     simp only [List.map_cons, RecOkN] at hrec
     exact hrec.2
   · intro x hx
@@ -340,20 +413,20 @@ theorem P6_next (M : Nat) (s : Text) (g f : Frag) (t : STok) (ts : List STok) (R
 
 theorem search_P6 (s : Text) (M : Nat) (ts : List STok) (h : SContract s ts)
     (hlen : ∀ t ∈ ts, t.to - t.from_ ≤ M) (hrec : RecOkN 0 0 (ts.map (·.to))) :
-    ∃ frags, searchFragments M ts = some frags ∧
+    ∃ frags, searchFragments 0 M ts = some frags ∧
       ∀ g ∈ frags, FI s g ∧ ∀ h ∈ g.hl, h.2 ≤ g.stop := by
-  obtain ⟨frags, e, hf⟩ := searchAux_inv' M (P6 M s) (fun f t r h => P1_safe s f t r h.1)
+  obtain ⟨frags, e, hf⟩ := searchAux_inv' 0 M (P6 M s) (fun f t r h => P1_safe s f t r h.1)
     (fun f t r h hc => by
       obtain ⟨h1, h2, R, h3, h4, h5⟩ := h
       have := P1_safe s f t r h1
       exact P6_next M s f f t r R h2 h3 (fun x hx => by have := h4 x hx; omega) (by omega)
-        (P1_add s f t r h1))
+        (P1_add 0 s f t r h1))
     (fun f t r h hc => by
       obtain ⟨h1, h2, R, h3, h4, h5⟩ := h
       have hl := h2 t List.mem_cons_self
       have hft := (h1.2.1.inb t List.mem_cons_self).1
       exact P6_next M s (Frag.new t.from_) f t r R h2 h3 (by simp [Frag.new])
-        (by simp only [Frag.new]; omega) (P1_cut s f t r h1))
+        (by simp only [Frag.new]; omega) (P1_cut 0 s f t r h1))
     ts (Frag.new 0) ⟨P1_init s ts h, hlen, 0, hrec, by simp [Frag.new], by simp [Frag.new]⟩
   refine ⟨frags, e, ?_⟩
   intro g hg
@@ -366,6 +439,16 @@ theorem search_P6 (s : Text) (M : Nat) (ts : List STok) (h : SContract s ts)
     have := P1_safe s g t rest h1
     have hlast := h3.1 (by omega)
     exact ⟨h1.1, fun x hx => by have := h4 x hx; omega⟩
+
+/-- in either mode: the record discipline (needed with the plain assignment) or nothing at all
+(with the running maximum) -/
+theorem search_records (mode : Nat) (s : Text) (M : Nat) (ts : List STok) (h : SContract s ts)
+    (hlen : ∀ t ∈ ts, t.to - t.from_ ≤ M) (hrec : RecOkN 0 0 (ts.map (·.to))) :
+    ∃ frags, searchFragments mode M ts = some frags ∧
+      ∀ g ∈ frags, FI s g ∧ ∀ h ∈ g.hl, h.2 ≤ g.stop := by
+  by_cases hm : mode = 0
+  · subst hm; exact search_P6 s M ts h hlen hrec
+  · exact search_P7 hm s M ts h
 
 /-- a run of consecutive values satisfies the record discipline once its first element does -/
 theorem recOk_run : ∀ (n a R last : Nat) (rest : List Nat), (a > R → last = R) →
